@@ -28,6 +28,52 @@ theorem PhyPort.lenM_pure (v : V) : LenPure PhyPort.lenM v := by
   obtain ⟨_, _, h'⟩ := bind_ok_inv _ _ _ h
   exact (same_ok _ _ _ _ h').2
 
+theorem UBuffer.lenM_pure (v : V) : LenPure UBuffer.lenM v := by
+  intro l v1 h
+  unfold UBuffer.lenM at h
+  obtain ⟨_, _, h'⟩ := bind_ok_inv _ _ _ h
+  exact (same_ok _ _ _ _ h').2
+
+theorem ErrorMsg.lenM_pure (v : V) : LenPure ErrorMsg.lenM v := by
+  intro l v1 h
+  unfold ErrorMsg.lenM at h
+  split at h
+  · obtain ⟨⟨lb, d'⟩, hd, h2⟩ := bind_ok_inv _ _ _ h
+    have e := UBuffer.lenM_pure _ _ _ hd
+    subst e
+    cases h2; rfl
+  · exact absurd h (by simp)
+
+theorem VendorError.lenM_pure (v : V) : LenPure VendorError.lenM v := by
+  intro l v1 h
+  unfold VendorError.lenM at h
+  split at h
+  · exact absurd h (by simp)
+  · obtain ⟨⟨le, e'⟩, he, h2⟩ := bind_ok_inv _ _ _ h
+    have e := ErrorMsg.lenM_pure _ _ _ he
+    subst e
+    cases h2; rfl
+  · exact absurd h (by simp)
+
+theorem FlowRemoved.lenM_pure (v : V) : LenPure FlowRemoved.lenM v := by
+  intro l v1 h
+  unfold FlowRemoved.lenM at h
+  split at h
+  · obtain ⟨⟨lm, m'⟩, hm, h2⟩ := bind_ok_inv _ _ _ h
+    have e := Match.lenM_pure _ _ _ hm
+    subst e
+    cases h2; rfl
+  · exact absurd h (by simp)
+
+/-- Len() first (result stored in the header), Len() again for the buffer: with a pure Len() both calls agree -/
+theorem len_twice {lenM : V → R (UInt16 × V)} {v : V} (hp : ∀ w, LenPure lenM w) {l0 l1 : UInt16} {v0 v1 : V}
+    (h0 : lenM v = .ok (l0, v0)) (h1 : lenM v0 = .ok (l1, v1)) : v0 = v ∧ l1 = l0 ∧ v1 = v := by
+  have e0 := hp v l0 v0 h0
+  subst e0
+  rw [h0] at h1
+  cases h1
+  exact ⟨rfl, rfl, rfl⟩
+
 /-- Len() loop and encoder loop over the SAME children -/
 theorem mapM2_flatten_same (g : V → R (UInt16 × V)) (f : V → R (Bytes × V)) :
     ∀ (xs : List V) (ls : List UInt16) (ys : List V) (bss : List Bytes) (zs : List V),
